@@ -558,6 +558,14 @@ func (vc *VC) specEffectsSig(eff *Effects, spec *FuncSpec, sig *types.Signature,
 		}
 	}
 	for _, m := range spec.Modifies {
+		if m.K == "call" && m.X.K == "id" && m.X.Name == "box" && len(m.Args) == 1 {
+			if tn := env.typeNameOf(m.Args[0]); tn != nil {
+				vc.ptrTargetEffect(eff, tn.Type(), nil)
+				continue
+			}
+			eff.all = true
+			continue
+		}
 		if m.K == "call" && m.X.K == "id" && m.X.Name == "contents" && len(m.Args) == 1 {
 			m = m.Args[0]
 			if t := env.staticType(m); t != nil {
